@@ -1,6 +1,7 @@
 package yqlib
 
 import (
+	"bufio"
 	"bytes"
 	"errors"
 	"io"
@@ -422,4 +423,74 @@ func VerifC19ReadErrors() {
 		verifAssert(!errors.Is(last, io.EOF), "C19/failed-read-reported-as-end-of-input"+label)
 	}
 	verifCover("C19/read-errors/end")
+}
+
+// files written through --split-exp (printer_writer.go is loaded with os.MkdirAll( and os.Create( redirected here)
+type c19SplitFile struct {
+	name string
+	data *[]byte
+}
+
+func (f c19SplitFile) Write(p []byte) (int, error) {
+	*f.data = append(*f.data, p...)
+	return len(p), nil
+}
+
+var c19SplitFiles []c19SplitFile
+
+func verifSplitMkdirAll(_ string, _ uint32) error { return nil }
+func verifSplitCreate(name string) (c19SplitFile, error) {
+	f := c19SplitFile{name: name, data: new([]byte)}
+	c19SplitFiles = append(c19SplitFiles, f)
+	return f, nil
+}
+
+// VerifC19SplitFiles: results split into files (--split-exp, one file per result): when the run reports success, the
+// files together hold exactly the bytes the same results give on one output - for every output format, small and
+// beyond-one-buffer results (an encoder that buffers privately and a writer that is flushed elsewhere lose the tail).
+func VerifC19SplitFiles() {
+	format := []string{"yaml", "props", "csv", "tsv", "xml", "shell", "lua"}[verifChoice("format", 7)]
+	big := verifChoice("size", 2) == 1
+	n := 1 + verifChoice("results", 2)
+	mk := func(i int) *CandidateNode {
+		val := "v" + verifItoa(int64(i))
+		if big {
+			val = strings.Repeat("0123456789abcdef", 300) + val // 4800 bytes: more than one 4096-byte buffer
+		}
+		if format == "csv" || format == "tsv" {
+			return vDocAt(vSeq(vSeq(vStr("a"), vStr(val))), uint(i), 0, "f.yml")
+		}
+		return vDocAt(vMap(vStr("a"), vStr(val)), uint(i), 0, "f.yml")
+	}
+	f, err := FormatFromString(format)
+	if err != nil {
+		verifFail("C19/format-lookup")
+	}
+	// one output
+	var sb strings.Builder
+	single := NewPrinter(f.EncoderFactory(), NewSinglePrinterWriter(bufio.NewWriter(c17Writer{&sb})))
+	for i := 0; i < n; i++ {
+		if err := single.PrintResults(mk(i).AsList()); err != nil {
+			verifFail("C19/single-output-failed")
+		}
+	}
+	// split
+	c19SplitFiles = nil
+	InitExpressionParser()
+	split := NewPrinter(f.EncoderFactory(), NewMultiPrinterWriter(vParse("$index"), f))
+	for i := 0; i < n; i++ {
+		if err := split.PrintResults(mk(i).AsList()); err != nil {
+			verifCover("C19/split/error")
+			return
+		}
+	}
+	total := 0
+	for _, sf := range c19SplitFiles {
+		total += len(*sf.data)
+	}
+	verifAssert(len(c19SplitFiles) == n, "C19/split-file-count format="+format)
+	want := len(sb.String())
+	verifObserve("bytes", int64(total))
+	verifAssert(total == want, "C19/exit-0-although-split-files-miss-bytes format="+format)
+	verifCover("C19/split/end")
 }
